@@ -235,6 +235,12 @@ structure Grads (α : Type) where
   start : V2 α        -- (∂/∂v₀, ∂/∂a₀)
   fin : V2 α
 
+/-- `U` block of the last interior knot -/
+def endU : Seg α → List (Seg α) → M2 α
+  | _, [sR] => blockU sR.tp
+  | _, sR :: s2 :: ss => endU sR (s2 :: ss)
+  | s, [] => blockU s.tp
+
 def propagate (b : Built α) (gs : List (C6 α)) : Grads α :=
   let l1 := loop1 b.segs gs b.knots
   let gd := oaddV2 (l1.map (·.2.1))
@@ -244,11 +250,13 @@ def propagate (b : Built α) (gs : List (C6 α)) : Grads α :=
   let l2 := loop2 b.segs b.knots lam
   let pts := zipAdd (oadd (l1.map (·.1))) (oadd3 (l2.map (·.1)))
   let tms := zipAdd (l1.map (·.2.2)) (oadd (l2.map (·.2)))
+  -- `L_blocks_cache_(0)` and `U_blocks_cache_(num_blocks-1)` hold the blocks of the first / last interior knot
   let (st, en) :=
-    match b.facts.head?, b.facts.getLast?, lam.head?, lam.getLast? with
-    | some f0, some fl, some lam0, some laml =>
-        (V2.sub rawStart (M2.actT f0.l lam0), V2.sub rawEnd (M2.actT fl.u laml))
-    | _, _, _, _ => (rawStart, rawEnd)
+    match b.segs with
+    | s0 :: s1 :: rest =>
+        (V2.sub rawStart (M2.actT (blockL s0.tp) (lam.headD V2.zero)),
+         V2.sub rawEnd (M2.actT (endU s0 (s1 :: rest)) (lam.getLastD V2.zero)))
+    | _ => (rawStart, rawEnd)
   { points := pts, times := tms, start := st, fin := en }
 
 end Quintic
